@@ -18,8 +18,12 @@ func init() {
 			"the accepted configs' callbacks were called, the client saw the certificate of the config in effect and not of the replaced one, messages flow; GetConfigForClient-only is recorded without verdict), " +
 			"subs (seed-drawn SUBSCRIBE/UNSUBSCRIBE scripts on the SUB socket and/or 1-2 of its contexts over a universe of nested prefixes (empty prefix and self-overlapping words included) plus unrelated topics, values as []byte (scribbled afterwards) or string, " +
 			"ending with the removal of every established subscription one by one; model = a plain set per receiver: SUBSCRIBE accepted, UNSUBSCRIBE of a member accepted, of a non-member ErrBadValue; after every call a probe batch + sentinel over the one connection (vt peer or a real PUB): " +
-			"every receiver delivers exactly the probes its own set matches, in order). " +
-			"quick: effects on inproc and vt, 26 tlscfg and 40 subs cases; thorough: effects on all 6 transports, more queue lengths and more seed-chosen sequences, 122 tlscfg and 240 subs cases (a third over real transports). " +
+			"every receiver delivers exactly the probes its own set matches, in order), " +
+			"maxrecv (a seed-drawn sequence of 2-3 MAX-RCV-SIZE limits from {0, 64, 320, 1600, 8000}, consecutive ones differing by a factor >= 5, each set on the receiving socket or on its listener/dialer (seed-chosen per step), " +
+			"the first one before or after the endpoint was started, the rest after connections exist; receiver pair/pull/sub/bus/xpair/xpull listening or dialing over ipc, tcp, tls+tcp, ws, wss: after every accepted Set the endpoint's Get returns the value, " +
+			"a new connection is made (first Dial, or the peer closes its pipe and the dialer reconnects), a message of half the limit (limit 0: twice the limit in effect before) is delivered and one of twice the limit is not " +
+			"(receiver reports Detached; after the reconnect a sentinel arrives at the one parked Recv instead of the probe)). " +
+			"quick: effects on inproc and vt, 26 tlscfg, 40 subs and 20 maxrecv cases; thorough: effects on all 6 transports, more queue lengths and more seed-chosen sequences, 122 tlscfg, 240 subs cases (a third over real transports) and 160 maxrecv cases. " +
 			"non-trivial = a grid ran to completion on an object / the effect was really exercised (option accepted and traffic observed); " +
 			"distinct = hash of (object label, full outcome table) for grids, of (kind, protocol, option, transport, sequence, observed outcome) for effects",
 		Assume: commonAssume})
